@@ -164,7 +164,10 @@ def minimise(engine, prop, case, violation, budget_s=240.0):
 
 
 def _n_ops(case):
-    return len(case.get("ops", [])) + len(case.get("faults", []))
+    n = len(case.get("ops") or []) + len(case.get("faults") or [])
+    for g in case.get("groups") or []:
+        n += len(g)
+    return n
 
 
 def write_replay(engine, prop, seed, rec, small, v, orig_ops, attempts):
